@@ -18,7 +18,7 @@ RULE = ("lengths {1,2,3,9,10,11,25,60} x topic mix {own, alternating, foreign-he
 ASSUMPTIONS = ["Redis and RabbitMQ are wire-level fakes (RabbitMQ: FIFO per priority, requeue to original position)",
                "single priority per run (priority order is randomised by design on redis)", "messages deliverable at enqueue time (no delay)"]
 EVAL_COUNTER = "deliveries_judged"
-REQUIRED = ["deliveries_judged", "mode_all", "mode_steady", "mode_reject", "returns_judged", "long_backlogs", "stale_delay_messages", "idle_polls_timed_out", "expired_messages_in_the_queue", "consume_calls_cancelled", "mode_pause"]
+REQUIRED = ["deliveries_judged", "mode_all", "mode_steady", "mode_reject", "returns_judged", "long_backlogs", "stale_delay_messages", "idle_polls_timed_out", "expired_messages_in_the_queue", "consume_calls_cancelled", "mode_pause", "re_enqueued_while_waiting"]
 CASE_TIMEOUT = 120
 
 LENGTHS = [1, 2, 3, 9, 10, 11, 25, 60]
@@ -41,6 +41,12 @@ def gen_cases(tier, seed):
         combos += [(2, "own", f"pause:{g}") for g in (0.03, 0.07, 0.25)]
         # cancel: a consume() waiting on an empty queue is cancelled k scheduling quanta after a burst has been enqueued
         combos += [(3, "own", f"cancel:{k}") for k in (range(0, 30) if tier == "quick" else range(0, 60))]
+        # a producer that enqueues under a fixed id (a nightly report) does so again while the first copy is still waiting,
+        # other messages arriving in between: the waiting one keeps its place
+        for between in ((1, 4) if tier == "quick" else (1, 2, 4, 12)):
+            for started in (False, True):
+                cases.append({"type": "reenqueue", "kind": kind, "between": between, "consumer_first": started, "prio": rnd.choice([0, 5, 9]), "seed": rnd.randrange(10**6),
+                              "latency": None if kind == "mem" else rnd.choice([None, 0.002]), "n": between, "mix": "own", "mode": "reenqueue"})
         reps = 1 if tier == "quick" else 3
         for rep in range(reps):
             for n, mix, mode in combos:
@@ -54,9 +60,76 @@ def V(rule, kind, ctx, detail):
     return {"rule": rule, "broker": kind, "context": ctx, "detail": detail}
 
 
+async def reenqueue_scenario(loop, case, out, stats, fps):
+    from repid.data.priorities import PrioritiesT
+    from repid.message import MessageCategory
+    from rv.rigs import Rig, key_of
+
+    kind, between = case["kind"], case["between"]
+    rig = Rig(kind, loop, latency=case["latency"], seed=case["seed"])
+    try:
+        conn = rig.make_connection("p1")
+        await conn.connect()
+        mb = conn.message_broker
+        await mb.queue_declare("q")
+        P = mb.PARAMETERS_CLASS
+        prio = PrioritiesT(case["prio"])
+
+        def key(id_):
+            return key_of(conn, id_, "t", "q", priority=prio.value)
+
+        # the consumer is busy with (holds) a first message, so everything below waits in the queue
+        cons = mb.get_consumer("q", None, 1, MessageCategory.NORMAL)
+        delivered = []
+        if case["consumer_first"]:
+            await mb.enqueue(key("head"), "h", P())
+            await cons.start()
+            k0, _, _ = await asyncio.wait_for(cons.consume(), 5.0)
+            delivered.append(k0.id_)
+        await mb.enqueue(key("nightly"), "first", P())
+        for i in range(between):
+            await mb.enqueue(key(f"b{i}"), "x", P())
+        await mb.enqueue(key("nightly"), "again", P())
+        await mb.enqueue(key("tail"), "x", P())
+        if case["consumer_first"]:
+            await mb.ack(k0)
+        else:
+            await cons.start()
+        while True:
+            try:
+                k, _pl, _pr = await asyncio.wait_for(cons.consume(), 3.0)
+            except asyncio.TimeoutError:
+                break
+            delivered.append(k.id_)
+            await mb.ack(k)
+            if len(delivered) > between + 8:
+                break
+        await cons.finish()
+        stats["deliveries_judged"] += len(delivered)
+        stats["re_enqueued_while_waiting"] += 1
+        fps.add(f"{kind}/reenqueue/{between}/{int(case['consumer_first'])}")
+        ctx = "reenqueue"
+        if "nightly" not in delivered:
+            out.append(V("starved", kind, ctx, f"'nightly' enqueued first (and again after {between} others) was never delivered: {delivered}"))
+        else:
+            first = delivered.index("nightly")
+            over = [d for d in delivered[:first] if d.startswith("b") or d == "tail"]
+            if over:
+                out.append(V("overtaken", kind, ctx, f"'nightly' was enqueued before {over} (and enqueued again, under the same id, after them while it was still waiting): delivered {delivered}"))
+        missing = [f"b{i}" for i in range(between) if f"b{i}" not in delivered] + ([] if "tail" in delivered else ["tail"])
+        if missing:
+            out.append(V("starved", kind, ctx + "/others", f"{missing} never delivered: {delivered}"))
+        stats["unknown_server_commands"] += rig.unknown_commands()
+    finally:
+        rig.close()
+
+
 async def scenario(loop, case, out, stats, fps, samples):
     from repid.message import MessageCategory
     from rv.rigs import Rig, key_of
+
+    if case.get("type") == "reenqueue":
+        return await reenqueue_scenario(loop, case, out, stats, fps)
 
     kind, n, mix, mode = case["kind"], case["n"], case["mix"], case["mode"]
     rnd = random.Random(case["seed"])
@@ -124,6 +197,15 @@ async def scenario(loop, case, out, stats, fps, samples):
         delivered = []
         returned_at = {}  # id -> enqueue counter at the time of its return
         idle = {"mem": 0.3, "redis": 2.5, "rabbit": 0.6}[kind]
+        if kind == "redis" and expired:
+            # the Redis consumer dead-letters ONE expired message per polling round (~0.35 s each): a run of expired messages
+            # in front of a live one is progress, not a stall - the idle bound grows with the longest such run
+            run = longest = 0
+            for id_ in sorted(order, key=order.get):
+                run = run + 1 if id_ in expired else 0
+                longest = max(longest, run)
+            idle += 0.6 * longest
+            stats["longest_run_of_expired_messages"] = max(stats.get("longest_run_of_expired_messages", 0), longest)
 
         async def take():
             try:
